@@ -13,14 +13,26 @@ VENV_PY = '/venv/bin/python'
 def load_known(prop):
     """known_findings.txt lines:  finding: property=<id> key=<obligation name or runtime signature> :: <what fails>
                                   fixed: property=<id> <commit> <what failed>      (suppresses nothing)"""
-    out = {}
+    out = KnownFindings()
     path = os.path.join(ROOT, 'known_findings.txt')
     if not os.path.exists(path): return out
     for line in open(path):
         line = line.strip()
         m = re.match(r'finding:\s+property=(\S+)\s+key=(\S+)\s*::\s*(.*)', line)
-        if m and m.group(1) == prop: out[m.group(2)] = m.group(3)
+        if m and m.group(1) == prop: out.items.append((m.group(2), m.group(3)))
     return out
+
+class KnownFindings:
+    """keys are fnmatch patterns over obligation names / runtime signatures (they name the call site + input class of a recorded finding)"""
+    def __init__(self): self.items = []
+    def __contains__(self, name): return self.match(name) is not None
+    def match(self, name):
+        for pat, text in self.items:
+            rx = '^' + '.*'.join(re.escape(x) for x in pat.split('*')) + '$'     # only `*` is a wildcard
+            if re.match(rx, name): return (pat, text)
+        return None
+    def __getitem__(self, name): return self.match(name)[1]
+    def key(self, name): return self.match(name)[0]
 
 def run_rt(prop, tier, seed, focus, out_path, budget=None):
     cmd = [VENV_PY, '-m', 'rt.run', prop, '--tier', tier, '--seed', str(seed), '--out', out_path]
@@ -64,8 +76,11 @@ def _main(a, prop, seed, t0):
     timeout = 60 if tier == 'quick' else 300
     obls, info = R.generate(mod, a.only)
     gen_s = time.time() - t0
+    known = load_known(prop)
     jobs = [Obligation(ob.name, list(ax) + list(ob.assumptions), ob.goal, ob.prefix, ob.kind) for name, ob, ax in obls]
-    res = solve.discharge(jobs, timeout=timeout)
+    # obligations of recorded findings are expected not to be discharged: give them a short budget
+    budgets = [(8 if (name in known and not name.endswith('~known-defect-shape')) else timeout) for name, ob, ax in obls]
+    res = solve.discharge(jobs, timeout=timeout, budgets=budgets)
     # ---- collect per-name status
     by_name = {}
     canary_bad = []
@@ -101,7 +116,6 @@ def _main(a, prop, seed, t0):
         print(f"baseline written: {len(names)-len(failed)} proved obligation names ({len(failed)} failed not listed)")
     baseline = set(json.load(open(base_path))) if os.path.exists(base_path) else set()
     missing = sorted(baseline - set(names))          # proved before, not even generated now
-    known = load_known(prop)
     # ---- runtime side: concrete interpretation of the contracts on the real code (bounded; refutation + validation)
     rt = None
     focus = set(failed) | set(missing)
@@ -119,7 +133,7 @@ def _main(a, prop, seed, t0):
     rt_viol = rt['violations'] if rt else []
     rt_unlisted = []
     for v in rt_viol:
-        if v['signature'] in known: known_lines.append((v['signature'], known[v['signature']]))
+        if v['signature'] in known: known_lines.append((known.key(v['signature']), known[v['signature']]))
         else: rt_unlisted.append(v)
     seen_sig = set()
     for v in rt_unlisted:
@@ -127,8 +141,12 @@ def _main(a, prop, seed, t0):
         seen_sig.add(v['signature'])
         violations.append((v['replay'], ''))
     for n in failed:
+        if n.endswith('~known-defect-shape'): continue
         if n in known:
-            known_lines.append((n, known[n])); continue
+            # a recorded finding suppresses the alarm only while the code still has exactly the recorded shape of the defect
+            comp = n + '~known-defect-shape'
+            if comp not in by_name or by_name[comp]['proved'] == by_name[comp]['instances']:
+                known_lines.append((known.key(n), known[n])); continue
         st = by_name[n]
         rp = os.path.join(ROOT, 'replays', prop, 'obligation__' + re.sub(r'[^A-Za-z0-9_.\[\]-]+', '_', n)[:150] + '.json')
         if n in baseline:
@@ -189,6 +207,9 @@ def _main(a, prop, seed, t0):
           + (f"; runtime evaluations {rt['coverage']['evaluations']} ({rt['coverage']['distinct_nontrivial']} distinct non-trivial), {len(rt_viol)} contract violations" if rt else ''))
     if a.v or failed:
         for n in failed: print("  not discharged:", n, by_name[n]['results'])
+    if a.v:
+        slow = sorted(((r['wall'], name) for (name, ob, _), r in zip(obls, res)), reverse=True)[:15]
+        for w_, n_ in slow: print(f"  slow {w_:.1f}s {n_}")
     seen = set()
     for k, what in known_lines:
         if k in seen: continue
